@@ -124,56 +124,79 @@ func ruleP13Translate(p *Prog, r *Report) {
 			if !ok {
 				continue
 			}
-			var gs []string
-			for _, g := range guardsOf(st.Block()) {
-				if x, isNil, ok := nilFact(g); ok {
-					neg := ""
-					if isNil {
-						neg = "!"
-					}
-					if tag, _ := fieldTagOfLoad(x); tag != "" {
-						gs = append(gs, neg+"set:"+tag)
-						continue
-					}
-					if shortcut != nil && sameValue(x, shortcut) {
-						gs = append(gs, neg+"shortcut")
-						continue
+			// the value may itself be chosen among several (a helper's returns, a variable
+			// assigned under ifs): one row per way, under the conditions of that way.  What a
+			// way excludes (the negative conditions of later overrides) is not part of its row.
+			for _, vr := range valueRows(st.Val, 0, map[ssa.Value]bool{}) {
+				var gs []string
+				seenG := map[string]bool{}
+				add := func(s string) {
+					if !seenG[s] {
+						seenG[s] = true
+						gs = append(gs, s)
 					}
 				}
-				if tag, _ := fieldTagOfLoad(g.Cond); tag != "" {
-					if g.Pol {
-						gs = append(gs, "set:"+tag)
-					} else {
-						gs = append(gs, "!set:"+tag)
-					}
-					continue
-				}
-				if b, ok := g.Cond.(*ssa.BinOp); ok {
-					if s, isS := constString(b.Y); isS && s == "" {
-						if tag, _ := fieldTagOfLoad(b.X); tag != "" {
-							pos := (b.Op == token.NEQ) == g.Pol
-							if pos {
-								gs = append(gs, "set:"+tag)
-							} else {
-								gs = append(gs, "!set:"+tag)
-							}
+				all := append(append([]Guard{}, guardsOf(st.Block())...), vr.guards...)
+				multi := len(vr.guards) > 0
+				for _, g := range all {
+					if x, isNil, ok := nilFact(g); ok {
+						neg := ""
+						if isNil {
+							neg = "!"
+						}
+						if tag, _ := fieldTagOfLoad(x); tag != "" {
+							add(neg + "set:" + tag)
+							continue
+						}
+						if shortcut != nil && sameValue(x, shortcut) {
+							add(neg + "shortcut")
 							continue
 						}
 					}
+					if tag, _ := fieldTagOfLoad(g.Cond); tag != "" {
+						if g.Pol {
+							add("set:" + tag)
+						} else {
+							add("!set:" + tag)
+						}
+						continue
+					}
+					if b, ok := g.Cond.(*ssa.BinOp); ok {
+						if s, isS := constString(b.Y); isS && s == "" {
+							if tag, _ := fieldTagOfLoad(b.X); tag != "" {
+								pos := (b.Op == token.NEQ) == g.Pol
+								if pos {
+									add("set:" + tag)
+								} else {
+									add("!set:" + tag)
+								}
+								continue
+							}
+						}
+					}
+					add("?")
 				}
-				gs = append(gs, "?")
-			}
-			sort.Strings(gs)
-			val := "?"
-			switch fieldName(fa) {
-			case "Tags", "EntryType":
-				if tag, _ := fieldTagOfLoad(st.Val); tag != "" {
-					val = "flag:" + tag + "+0"
+				if multi {
+					var pos []string
+					for _, g := range gs {
+						if !strings.HasPrefix(g, "!") {
+							pos = append(pos, g)
+						}
+					}
+					gs = pos
 				}
-			default:
-				val = p.describeQueryValue(st.Val, isToday, shortcut)
+				sort.Strings(gs)
+				val := "?"
+				switch fieldName(fa) {
+				case "Tags", "EntryType":
+					if tag, _ := fieldTagOfLoad(vr.val); tag != "" {
+						val = "flag:" + tag + "+0"
+					}
+				default:
+					val = p.describeQueryValue(vr.val, isToday, shortcut)
+				}
+				rows = append(rows, row{fieldName(fa), strings.Join(gs, ","), val, p.instrPos(st)})
 			}
-			rows = append(rows, row{fieldName(fa), strings.Join(gs, ","), val, p.instrPos(st)})
 		}
 	}
 	want := map[string][]string{ // field|guard|value ; alternatives separated by "//"
